@@ -51,7 +51,11 @@ ExprPositions == <<
   <<"a += ", "">>, <<"t[", "] += 1">>,
   <<"local v: typeof(", ") = 1">>, <<"type TT = typeof(", ")">>, <<"ext1(1 :: typeof(", "))">>,
   <<"ext1(if a then ", " else 1)">>, <<"ext1(if ", " then 1 else 2)">>, <<"ext1(`{", "}`)">>,
-  <<"ext1(", " // 2)">>, <<"const kk = ", "">>
+  <<"ext1(", " // 2)">>, <<"const kk = ", "">>,
+  \* surplus values: more expressions than names (evaluated and discarded, but still part of the program)
+  <<"local v = 1, ", "">>, <<"local v, w = 1, 2, 3, ", "">>, <<"local v = ext1(), ", ", 2">>,
+  <<"a = 1, ", "">>, <<"a, b = 1, 2, ", ", 3">>, <<"t.k = 1, ", "">>, <<"const kk = 1, ", "">>,
+  <<"for k, v in ext1(), t, 1, 2, ", " do end">>, <<"local v = 1, function() return ", " end">>
 >>
 
 \* ---- statement-level constructs
@@ -92,7 +96,8 @@ StmtPositions == <<
   <<"local function g() ", " end">>, <<"function t.f() ", " end">>, <<"function t:mm() ", " end">>,
   <<"ext1(function() ", " end)">>, <<"local o = {f = function() ", " end}">>,
   <<"for i = 1, 2 do if c then continue end ", " end">>,
-  <<"local g = if a then function() ", " end else nil">>
+  <<"local g = if a then function() ", " end else nil">>,
+  <<"local g = nil, function() ", " end">>, <<"a = nil, function() ", " end">>
 >>
 
 Prelude == "local a, b, c, t = ext1(), ext1(), ext1(), extt()\n"
